@@ -38,17 +38,18 @@ Proof.
   destruct n; okd; cbn [nmul lift2 toQ] in *; rewrite <- Hv; cbn; ring.
 Qed.
 
-(* ---- a clause that is FALSE of the faithful model ----------------------------------------------------------------------------
-   Ppar given an input event with a 'stretch' key: the rests that fill the gap left by a voice that has ended are built by
-   Event.silent(nexttime - now, inevent), which multiplies by that stretch a second time (the queue times already are in
-   stretched time).  Voice 0 (dur 1, 1; stretch 2) has its second event at its own time 2 but it is played at 3.
-   SuperCollider's Ppar + Event.silent do the same arithmetic. *)
+(* ---- Ppar given an input event with a 'stretch' key (e.g. Pchain(Ppar(...), Pbind(stretch = 2)), or a proto event) ------
+   released code: the rests that fill the gap left by a voice that has ended are built by Event.silent(nexttime - now,
+   inevent), which multiplies by that stretch a second time (the queue times already are in stretched time): voice 0
+   (dur 1, 1; stretch 2) has its second event at its own time 2 but it is played at 3.  Repaired: at 2. *)
+Definition released_ppar : cfg := mkCfg true true true true true true true false.
 Definition stretch_witness : pat :=
   PPar [PBind [("instrument"%string, VRep (VSym "c14a")); ("pan"%string, VRep (VNum (I 0))); ("dur"%string, VSeq [VNum (I 1); VNum (I 1)])];
         PBind [("instrument"%string, VRep (VSym "c14a")); ("pan"%string, VRep (VNum (I 1))); ("dur"%string, VSeq [VNum (F (1 # 2))])]].
+Definition stretch_proto : event := [("stretch"%string, VNum (I 2)); ("legato"%string, VNum (F (1 # 2)))].
+Definition voices (l : list bundle) : list (Q * Z) :=
+  map (fun b => (Qred (fst b), voice b)) (filter (fun b => match snd b with MNew _ _ _ _ _ => true | _ => false end) l).
 Lemma ppar_stretched_input_refuted_l :
-  map (fun b => (Qred (fst b), voice b))
-      (filter (fun b => match snd b with MNew _ _ _ _ _ => true | _ => false end)
-              (sends patched K0 the_lib 0 20 6 stretch_witness [("stretch"%string, VNum (I 2)); ("legato"%string, VNum (F (1 # 2)))] 0))
-  = [(0, 0%Z); (0, 1%Z); (3, 0%Z)].
-Proof. vm_compute. reflexivity. Qed.
+  voices (sends released_ppar K0 the_lib 0 20 6 stretch_witness stretch_proto 0) = [(0, 0%Z); (0, 1%Z); (3, 0%Z)] /\
+  voices (sends patched K0 the_lib 0 20 6 stretch_witness stretch_proto 0) = [(0, 0%Z); (0, 1%Z); (2, 0%Z)].
+Proof. vm_compute. split; reflexivity. Qed.
